@@ -223,6 +223,83 @@ def run(ctx):
                 ctx.ob("C16.sinks", f"{f.key}:writeto", f.key in allowed_wt, where=f, node=c, construct=norm_text(c)[:100], message="a FITS file is written outside the file writer utils")
                 ow = wire.kw(c).get("overwrite")
                 ctx.ob("C16.overwrite", f"{f.key}:writeto-overwrite", ow is None or (isinstance(ow, ast.Constant) and ow.value is False), where=f, node=c, construct=norm_text(c)[:100], message="writeto must not overwrite by itself: an existing path must fail unless overwrite was requested")
+    # every function that constructs an HDU writes the caller's header entries into it (the pixel scale travels in the header)
+    for fk in sorted(hdu_funcs):
+        hf = p.func(fk)
+        if "header_dict" not in hf.all_params:
+            continue
+        hcalls = [c for c in hf.calls() if norm_text(c.func).endswith(("PrimaryHDU", "ImageHDU"))]
+        hdrs = set()
+        for c in hcalls:
+            b = wire.kw(c)
+            h_ = b.get("header", c.args[1] if len(c.args) > 1 else None)
+            hdrs.add(norm_text(h_) if h_ is not None else None)
+        okh = len(hdrs) == 1 and None not in hdrs
+        det = f"header argument(s) {sorted(map(str, hdrs))}"
+        if okh:
+            H = next(iter(hdrs))
+            # (the header may reach the HDU under another name - the result variable of an extracted helper - as long as every value that name receives is the one header object)
+            for _ in range(3):
+                asg = [n for n in hf.body_nodes() if isinstance(n, ast.Assign) and len(n.targets) == 1 and norm_text(n.targets[0]) == H]
+                if asg and all(isinstance(n.value, ast.Name) for n in asg) and len({n.value.id for n in asg}) == 1:
+                    H = asg[0].value.id
+                else:
+                    break
+            init = [n for n in hf.body_nodes() if isinstance(n, ast.Assign) and len(n.targets) == 1 and norm_text(n.targets[0]) == H]
+            okh = len(init) == 1 and norm_text(init[0].value) in ("fits.Header()", "Header()", "fits.header.Header()")
+
+            def items_iter(it):
+                """'plain' for header_dict.items(), 'guarded' for `header_dict.items() if header_dict is not None else ()` (temporaries read through), else None"""
+                if isinstance(it, ast.Name):
+                    # the conditional expression written as an if / else on the same name (also what N10 makes of it)
+                    asg_ = [n for n in hf.body_nodes() if isinstance(n, ast.Assign) and len(n.targets) == 1 and norm_text(n.targets[0]) == it.id]
+                    if len(asg_) == 2:
+                        br_ = [wire.enclosing_branches(hf, n) for n in asg_]
+                        if all(len(b_) == 1 for b_ in br_) and br_[0][0][0] is br_[1][0][0] and br_[0][0][1] != br_[1][0][1]:
+                            tst = norm_text(br_[0][0][0].test)
+                            pos = {True: None, False: None}
+                            for n, b_ in zip(asg_, br_):
+                                pos[b_[0][1]] = n.value
+                            if tst in ("header_dict is None", "not header_dict"):
+                                pos = {True: pos[False], False: pos[True]}
+                            elif tst not in ("header_dict is not None", "header_dict"):
+                                return None
+                            if norm_text(pos[True]) == "header_dict.items()" and isinstance(pos[False], (ast.Tuple, ast.List, ast.Dict)) and not getattr(pos[False], "elts", getattr(pos[False], "keys", [])):
+                                return "guarded"
+                        return None
+                it = wire.inline_locals(hf, it)
+                if norm_text(it) == "header_dict.items()":
+                    return "plain"
+                if isinstance(it, ast.IfExp):
+                    t_, a_, b_ = norm_text(it.test), it.body, it.orelse
+                    if t_ in ("header_dict is None", "not header_dict"):
+                        a_, b_ = b_, a_
+                    elif t_ not in ("header_dict is not None", "header_dict"):
+                        return None
+                    if norm_text(a_) == "header_dict.items()" and isinstance(b_, (ast.Tuple, ast.List, ast.Dict)) and not getattr(b_, "elts", getattr(b_, "keys", [])):
+                        return "guarded"
+                return None
+            loops = [n for n in hf.body_nodes() if isinstance(n, ast.For) and items_iter(n.iter) is not None and isinstance(n.target, (ast.Tuple, ast.List)) and len(n.target.elts) == 2]
+            okh = okh and len(loops) == 1
+            if okh:
+                kx, vx = (norm_text(e) for e in loops[0].target.elts)
+                wrote = False
+                for n in ast.walk(loops[0]):
+                    if isinstance(n, ast.Call) and norm_text(n.func) == f"{H}.append" and n.args and isinstance(n.args[0], (ast.Tuple, ast.List)) and len(n.args[0].elts) >= 2 \
+                            and norm_text(n.args[0].elts[0]) == kx and norm_text(n.args[0].elts[1]) == vx and not wire.path_conds(hf, n)[len(wire.path_conds(hf, loops[0])):]:
+                        wrote = True
+                    if isinstance(n, ast.Call) and norm_text(n.func) == f"{H}.set" and len(n.args) >= 2 and norm_text(n.args[0]) == kx and norm_text(n.args[1]) == vx:
+                        wrote = True
+                    if isinstance(n, ast.Assign) and len(n.targets) == 1 and norm_text(n.targets[0]) == f"{H}[{kx}]" and norm_text(n.value) == vx:
+                        wrote = True
+                pcs = wire.path_conds(hf, loops[0])
+                guard_ok = pcs in ([], [("header_dict is not None", True)], [("header_dict", True)]) or (len(pcs) == 1 and wire.cond_holds(pcs, "header_dict is not None")) \
+                    or (items_iter(loops[0].iter) == "guarded" and not pcs)
+                order = {id(n_): k_ for k_, n_ in enumerate(hf.body_nodes())}
+                okh = wrote and guard_ok and all(order[id(loops[0])] < order[id(c)] for c in hcalls)
+                det = f"loop over header_dict.items() under {pcs}; entry written: {wrote}"
+        ctx.ob("C16.header", fk + ":write", okh, where=hf, node=hcalls[0] if hcalls else hf.node, construct=det,
+               message="every (key, value) of header_dict must be written into the header that the HDU is built with, whenever a header_dict is given (the pixel scale is read back from it)")
     ctx.require_count("C16.sinks", "functions constructing a PrimaryHDU", len(hdu_funcs), 1)
     ctx.require_count("C16.sinks", "writeto calls", n_w, 2)
     # ---- overwrite / directories
@@ -389,5 +466,8 @@ CONTROLS = [
     Control("writeto(overwrite=True)", _A2, in_func("numpy_array_2d_to_fits", "hdu.writeto(file_path)", "hdu.writeto(file_path, overwrite=True)"), "C16.overwrite"),
     Control("reader consumes PIXSCAL", "autoarray/structures/arrays/kernel_2d.py", in_func("Kernel2D.from_primary_hdu", "primary_hdu.header[\"PIXSCALE\"]", "primary_hdu.header[\"PIXSCAL\"]"), "C16.header"),
     Control("mask written as bool-cast ints via slim", "autoarray/mask/mask_2d.py", in_func("Mask2D.output_to_fits", "array_2d=self.astype(\"float\"),", "array_2d=np.invert(self).astype(\"float\"),"), "C16.values"),
+    Control("header loop under the negated guard", _A2, in_func("hdu_for_output_from", "    if header_dict is not None:\n        for key, value in header_dict.items():", "    if header_dict is None:\n        for key, value in header_dict.items():"), "C16.header"),
+    Control("header written as (value, key)", _A2, in_func("hdu_for_output_from", "header.append((key, value, [\"\"]))", "header.append((value, key, [\"\"]))"), "C16.header"),
+    Control("twin: header written by item assignment", _A2, in_func("hdu_for_output_from", "header.append((key, value, [\"\"]))", "header[key] = value"), None, twin=True),
     Control("twin: dirname instead of split()[0]", _A2, in_func("numpy_array_2d_to_fits", "file_dir = os.path.split(file_path)[0]", "file_dir = os.path.dirname(file_path)"), None, twin=True),
 ]
